@@ -4,7 +4,7 @@
    formulas are the regenerated kernels of gen/G_coords.v.  `e` is the (unused)
    erf parameter of the instance. *)
 From Coq Require Import Reals ZArith Lra.
-From Sky Require Import Num NumR M_Coords S_Coords P_Coords_Real P_Coords P_Coords_Rot.
+From Sky Require Import Num NumR G_coords M_Coords S_Coords P_Coords_Real P_Coords P_Coords_Rot P_Coords_Sky.
 Open Scope R_scope.
 
 (* ------------------------------------------------------------ angular_separation *)
@@ -131,6 +131,69 @@ Theorem C19_psi_to_dec_and_ra : forall (e : R -> R) src_dec src_ra psi t,
                   (fst (psi2decra (RNum e) src_dec src_ra psi t)) src_ra src_dec None = psi.
 Proof. exact psi2decra_sep. Qed.
 Print Assumptions C19_psi_to_dec_and_ra.
+
+(* ------------------------------------------------------------ rotate_signal_events_on_sphere *)
+(* The astropy operations are oracles O of the model.  Premises = their
+   documented contracts: separation is the angle between the unit vectors;
+   directional_offset_by(pa, d) from a point of latitude in [-pi/2, pi/2]
+   returns the coordinates (lon in [0, 2 pi), lat in [-pi/2, pi/2]) of the point
+   at distance d in direction pa (north through east). *)
+Theorem C19_rses_preserves_separation :
+  forall (e : R -> R) (O : sky_oracle (T := R)),
+  (forall l1 b1 l2 b2, o_separation O l1 b1 l2 b2 = acos (vdot (dirv l1 b1) (dirv l2 b2))) ->
+  (forall lon lat pa d, - (PI / 2) <= lat <= PI / 2 -> 0 <= d <= PI ->
+     dirv (fst (o_offset_by O lon lat pa d)) (snd (o_offset_by O lon lat pa d)) = offset_point lon lat pa d
+     /\ 0 <= fst (o_offset_by O lon lat pa d) < 2 * PI
+     /\ - (PI / 2) <= snd (o_offset_by O lon lat pa d) <= PI / 2) ->
+  forall src_ra src_dec true_ra true_dec reco_ra reco_dec,
+  - (PI / 2) <= src_dec <= PI / 2 ->
+  angsep (RNum e) (fst (rses (RNum e) O src_ra src_dec true_ra true_dec reco_ra reco_dec))
+                  (snd (rses (RNum e) O src_ra src_dec true_ra true_dec reco_ra reco_dec)) src_ra src_dec None
+  = angsep (RNum e) reco_ra reco_dec true_ra true_dec None.
+Proof. exact rses_preserves_sep. Qed.
+Print Assumptions C19_rses_preserves_separation.
+
+Theorem C19_rses_range :
+  forall (e : R -> R) (O : sky_oracle (T := R)),
+  (forall l1 b1 l2 b2, o_separation O l1 b1 l2 b2 = acos (vdot (dirv l1 b1) (dirv l2 b2))) ->
+  (forall lon lat pa d, - (PI / 2) <= lat <= PI / 2 -> 0 <= d <= PI ->
+     dirv (fst (o_offset_by O lon lat pa d)) (snd (o_offset_by O lon lat pa d)) = offset_point lon lat pa d
+     /\ 0 <= fst (o_offset_by O lon lat pa d) < 2 * PI
+     /\ - (PI / 2) <= snd (o_offset_by O lon lat pa d) <= PI / 2) ->
+  forall src_ra src_dec true_ra true_dec reco_ra reco_dec,
+  - (PI / 2) <= src_dec <= PI / 2 ->
+  0 <= fst (rses (RNum e) O src_ra src_dec true_ra true_dec reco_ra reco_dec) < 2 * PI
+  /\ - (PI / 2) <= snd (rses (RNum e) O src_ra src_dec true_ra true_dec reco_ra reco_dec) <= PI / 2.
+Proof. exact rses_range. Qed.
+Print Assumptions C19_rses_range.
+
+(* with the position-angle contract in addition: the rotated reconstruction has
+   in the source's local (radial, north, east) frame the coordinates the
+   reconstruction has in the true direction's frame, i.e. separation and
+   position angle are both carried over *)
+Theorem C19_rses_preserves_frame :
+  forall (e : R -> R) (O : sky_oracle (T := R)),
+  (forall l1 b1 l2 b2, o_separation O l1 b1 l2 b2 = acos (vdot (dirv l1 b1) (dirv l2 b2))) ->
+  (forall lon lat pa d, - (PI / 2) <= lat <= PI / 2 -> 0 <= d <= PI ->
+     dirv (fst (o_offset_by O lon lat pa d)) (snd (o_offset_by O lon lat pa d)) = offset_point lon lat pa d
+     /\ 0 <= fst (o_offset_by O lon lat pa d) < 2 * PI
+     /\ - (PI / 2) <= snd (o_offset_by O lon lat pa d) <= PI / 2) ->
+  (forall l1 b1 l2 b2,
+     sin (acos (vdot (dirv l1 b1) (dirv l2 b2))) * cos (o_position_angle O l1 b1 l2 b2) = vdot (dirv l2 b2) (north l1 b1)
+     /\ sin (acos (vdot (dirv l1 b1) (dirv l2 b2))) * sin (o_position_angle O l1 b1 l2 b2) = vdot (dirv l2 b2) (east l1 b1)) ->
+  forall src_ra src_dec true_ra true_dec reco_ra reco_dec,
+  - (PI / 2) <= src_dec <= PI / 2 ->
+  let out := rses (RNum e) O src_ra src_dec true_ra true_dec reco_ra reco_dec in
+  vdot (dirv (fst out) (snd out)) (dirv src_ra src_dec) = vdot (dirv reco_ra reco_dec) (dirv true_ra true_dec)
+  /\ vdot (dirv (fst out) (snd out)) (north src_ra src_dec) = vdot (dirv reco_ra reco_dec) (north true_ra true_dec)
+  /\ vdot (dirv (fst out) (snd out)) (east src_ra src_dec) = vdot (dirv reco_ra reco_dec) (east true_ra true_dec).
+Proof. exact rses_frame. Qed.
+Print Assumptions C19_rses_preserves_frame.
+
+(* the code performs the rotation unconditionally: no `if`, a single `return` *)
+Theorem C19_rses_unconditional : rses_nif = 0%Z /\ rses_nreturn = 1%Z.
+Proof. exact (conj K_rses_nif K_rses_nreturn). Qed.
+Print Assumptions C19_rses_unconditional.
 
 (* ------------------------------------------------------------ canonical ranges *)
 (* every produced coordinate except hor_to_equ_transform's declination *)
